@@ -19,7 +19,7 @@ class ParseError(Exception):
 
 TOK = re.compile(r"""\s*(?:
     (//[^\n]*|/\*.*?\*/) |
-    (\d+\.\d+(?:_?f32)?|\d+(?:_?(?:i64|u16|usize|f32|u8|i8))?) |
+    (\d[\d_]*\.\d[\d_]*(?:_?f32)?|\d[\d_]*(?:_?(?:i64|u16|usize|f32|u8|i8))?) |
     ('[a-z_]+\b(?!')) |
     ([A-Za-z_][A-Za-z0-9_]*) |
     (::|->|=>|<=|>=|==|!=|\+=|-=|\*=|/=|&&|\|\||\.\.|[-+*/<>=(){}\[\],;.&!:|?\#@]) |
@@ -126,6 +126,9 @@ def scan_items(t, i, end, fns, enums, mod=""):
                 elif vv == ">": d -= 1
                 elif vv == "for" and d == 0: f = x
             trait = rest[0][1] if f is not None else None
+            targs = []
+            if f is not None and f > 1 and rest[1][1] == "<":
+                targs = [vv for kk, vv in rest[2:f - 1] if kk == "id"]
             ty = rest[f + 1:] if f is not None else rest
             if ty and ty[0][1] == "&": ty = ty[1:]
             tname = ty[0][1]
@@ -138,7 +141,7 @@ def scan_items(t, i, end, fns, enums, mod=""):
                     elif d == 1 and ty[x][0] == "id" and ty[x - 1][1] in ("<", ",") and ty[x][1] not in params and ty[x + 1][1] in (",", ">"):
                         conc.append(ty[x][1])
             key = tname + ("<" + ",".join(conc) + ">" if conc else "")
-            scan_fns(t, j + 1, e - 1, fns, key, trait)
+            scan_fns(t, j + 1, e - 1, fns, key, trait, targs)
             i = e
             continue
         if k == "op" and v == "{":
@@ -147,7 +150,7 @@ def scan_items(t, i, end, fns, enums, mod=""):
         i += 1
 
 
-def scan_fns(t, i, end, fns, key, trait):
+def scan_fns(t, i, end, fns, key, trait, targs=()):
     while i < end:
         k, v = t[i]
         if k == "op" and v == "#":
@@ -172,7 +175,7 @@ def scan_fns(t, i, end, fns, key, trait):
                 i = b + 1
                 continue
             e = skip_balanced(t, b, "{", "}")
-            fns.setdefault((key, name), []).append({"trait": trait, "params": params, "toks": t[b:e], "self_mut": any(vv == "mut" for kk, vv in ptoks[:3])})
+            fns.setdefault((key, name), []).append({"trait": trait, "targs": list(targs), "params": params, "toks": t[b:e], "self_mut": any(vv == "mut" for kk, vv in ptoks[:3])})
             i = e
             continue
         if k == "op" and v == "{":
@@ -330,6 +333,12 @@ class P:
         self.eat(")")
         return a
     def postfix(self, ns):
+        e = self.postfix0(ns)
+        while self.at("as") and self.peek()[0] == "id":
+            self.eat("as"); _, ty = self.eat()
+            e = ("cast", e, ty)
+        return e
+    def postfix0(self, ns):
         e = self.primary(ns)
         while True:
             if self.at("."):
@@ -441,6 +450,7 @@ def qs(s):
 class Emitter:
     def __init__(self, fns, enums, consts, self_key):
         self.fns, self.enums, self.consts, self.self_key = fns, enums, consts, self_key
+        self.self_type = self_key.split("<")[0] if self_key else None
         self.tmp = 0
         self.depth = 0
         self.inputs = set()
@@ -450,12 +460,27 @@ class Emitter:
         return "%%%s%d" % (base, self.tmp)
 
     def lit_f(self, txt):
-        txt = txt.replace("_f32", "").replace("f32", "")
+        txt = txt.replace("_f32", "").replace("f32", "").replace("_", "")
         if txt == "0.5":
             return "(ELit (VF fhalf))"
         if re.fullmatch(r"\d+\.0+", txt):
             return "(ELit (VF (f_of_Z %d)))" % int(txt.split(".")[0])
         raise ParseError("float literal %s is not an integer or 0.5" % txt)
+
+    def res(self, path):
+        """`Self` in a path is the impl's type"""
+        if path and path[0] == "Self" and self.self_type:
+            return [self.self_type] + list(path[1:])
+        return list(path)
+
+    def is_int(self, e):
+        """an i64-typed expression: the field of Time / DimensionlessInteger and arithmetic on it"""
+        k = e[0]
+        if k == "field": return e[2] == "0"
+        if k == "paren": return self.is_int(e[1])
+        if k == "unary" and e[1] in ("-", "*", "&"): return self.is_int(e[2])
+        if k == "bin" and e[1] in OPS: return self.is_int(e[2]) and self.is_int(e[3])
+        return False
 
     def lst(self, items):
         return "[" + "; ".join(items) + "]"
@@ -473,10 +498,16 @@ class Emitter:
             name = p[1][-1]
             if name in ("Ok", "Err", "Some") and len(p[2]) == 1:
                 return "(P%s %s)" % (name, self.pat(p[2][0]))
+            rp = self.res(p[1])
+            if len(rp) == 2 and rp[0] == "Command" and rp[1] in PD and len(p[2]) == 1:
+                return "(PCmd %s %s)" % (PD[rp[1]], self.pat(p[2][0]))
             raise ParseError("tuple-struct pattern %s" % "::".join(p[1]))
         if k == "ppath":
             path = p[1]
             if path == ["None"]: return "PNone"
+            if len(path) == 1 and path[0] in self.consts:
+                a, b = self.consts[path[0]]
+                return "(PUnitC (%d) (%d))" % (a, b)
             if len(path) == 2 and path[0] == "PositionDerivative": return "(PPD %s)" % PD[path[1]]
             if len(path) == 2 and path[0] in self.enums: return "(PVariant %s)" % qs("::".join(path))
             raise ParseError("path pattern %s" % "::".join(path))
@@ -589,9 +620,13 @@ class Emitter:
             if "." in e[1]: return self.lit_f(e[1])
             raise ParseError("integer literal %s outside a known context" % e[1])
         if k == "bool": return "(ELit (VB %s))" % ("true" if e[1] else "false")
+        if k == "cast":
+            if e[2] == "f32": return "(ECast true %s)" % self.expr(e[1])
+            if e[2] == "i64": return "(ECast false %s)" % self.expr(e[1])
+            raise ParseError("cast to %s" % e[2])
         if k == "tuple0": return "EUnit"
         if k == "path":
-            path = e[1]
+            path = self.res(e[1])
             if path == ["None"]: return "ENone"
             if path == ["Error", "FromNone"]: return "EErrFromNone"
             if len(path) == 2 and path[0] == "PositionDerivative": return "(ELit (VPD %s))" % PD[path[1]]
@@ -607,16 +642,28 @@ class Emitter:
             return "(EField %s %s)" % (self.expr(e[1]), qs(e[2]))
         if k == "unary":
             if e[1] in ("*", "&"): return self.expr(e[2])
+            if e[1] == "-" and self.is_int(e[2]): return "(EInt 9 [%s])" % self.expr(e[2])
             if e[1] == "-": return "(EOp 9 [%s])" % self.expr(e[2])
             if e[1] == "!": return "(EOp 10 [%s])" % self.expr(e[2])
         if k == "bin":
             o = e[1]
+            if o in OPS and self.is_int(e[2]) and self.is_int(e[3]):
+                return "(EInt %d [%s; %s])" % (OPS[o], self.expr(e[2]), self.expr(e[3]))
             if o in OPS: return "(EOp %d [%s; %s])" % (OPS[o], self.expr(e[2]), self.expr(e[3]))
             if o in CMP: return "(ECmp %d %s %s)" % (CMP[o], self.expr(e[2]), self.expr(e[3]))
             if o == "&&": return "(EIf %s %s (ELit (VB false)))" % (self.expr(e[2]), self.expr(e[3]))
             if o == "||": return "(EIf %s (ELit (VB true)) %s)" % (self.expr(e[2]), self.expr(e[3]))
         if k == "try": return "(ETry %s)" % self.expr(e[1])
         if k == "array": return "(EArr %s)" % self.lst([self.expr(x) for x in e[1]])
+        if k == "struct" and self.res(e[1])[-1] in ("Quantity", "State"):
+            ty = self.res(e[1])[-1]
+            order = ["value", "unit"] if ty == "Quantity" else ["position", "velocity", "acceleration"]
+            if sorted(f for f, _ in e[2]) != sorted(order): raise ParseError("fields of a %s literal" % ty)
+            tmps = dict((f, self.fresh("f")) for f, _ in e[2])
+            inner = "(EOp %d %s)" % (32 if ty == "Quantity" else 36, self.lst(["(EVar %s)" % qs(tmps[f]) for f in order]))
+            for f, fe in reversed(e[2]):
+                inner = "(ELet (PVar %s) %s %s)" % (qs(tmps[f]), self.expr(fe), inner)
+            return inner
         if k == "struct":
             tmps = [(f, self.fresh("f")) for f, _ in e[2]]
             inner = "(ERec %s)" % self.lst(["(%s, EVar %s)" % (qs(f), qs(t)) for f, t in sorted(tmps)])
@@ -626,13 +673,19 @@ class Emitter:
         if k == "call":
             fn, args = e[1], e[2]
             if fn[0] == "path":
-                path = fn[1]
+                path = self.res(fn[1])
+                if path in (["Time"], ["DimensionlessInteger"]) and len(args) == 1 and args[0][0] != "num":
+                    return "(EOp %d [%s])" % (25 if path == ["Time"] else 26, self.expr(args[0]))
+                if len(path) == 2 and path[0] == "Command" and path[1] in PD and len(args) == 1:
+                    return "(EOp 31 [(ELit (VPD %s)); %s])" % (PD[path[1]], self.expr(args[0]))
                 if path in (["Some"], ["Ok"], ["Err"]) and len(args) == 1:
                     return "(E%s %s)" % (path[0], self.expr(args[0]))
                 if path == ["powf"] and len(args) == 2:
                     return "(EPow %s %s)" % (self.expr(args[0]), self.expr(args[1]))
                 if path == ["Time"] and len(args) == 1 and args[0][0] == "num":
                     return "(ELit (VT %d))" % int(re.sub(r"_?i64", "", args[0][1]))
+                if path == ["Quantity", "from"] and len(args) == 1:
+                    return "(EQFrom %s)" % self.expr(args[0])
                 if len(path) == 2 and tuple(path) in CTOR_OPS:
                     return "(EOp %d %s)" % (CTOR_OPS[tuple(path)], self.lst([self.expr(a) for a in args]))
             raise ParseError("call of %r" % (fn,))
@@ -649,6 +702,10 @@ class Emitter:
             if name in ("unwrap",) and not args: return "(EUnwrap %s)" % self.expr(recv)
             if name == "expect" and len(args) == 1: return "(EUnwrap %s)" % self.expr(recv)
             if name == "is_err" and not args: return "(EIsErr %s)" % self.expr(recv)
+            if name == "eq_assume_true" and len(args) == 1:
+                return "(EOp 41 [%s; %s])" % (self.expr(recv), self.expr(args[0]))
+            if name == "eq_assume_false" and len(args) == 1:
+                return "(EOp 42 [%s; %s])" % (self.expr(recv), self.expr(args[0]))
             if name == "assert_eq_assume_ok" and len(args) == 1:
                 return "(EOp 43 [%s; %s])" % (self.expr(recv), self.expr(args[0]))
             if name == "assert_eq_assume_not_ok" and len(args) == 1:
@@ -675,6 +732,8 @@ class Emitter:
             return "(EReturn %s)" % (self.expr(e[1]) if e[1] is not None else "EUnit")
         if k == "assign":
             return "(EAssign %s %s)" % (self.lval(e[1]), self.expr(e[2]))
+        if k == "opassign" and self.is_int(e[2]) and self.is_int(e[3]):
+            return "(EAssign %s (EInt %d [%s; %s]))" % (self.lval(e[2]), OPS[e[1]], self.expr(e[2]), self.expr(e[3]))
         if k == "opassign":
             return "(EOpAssign %s %d %s)" % (self.lval(e[2]), OPS[e[1]] + 4, self.expr(e[3]))
         if k == "if":
